@@ -7,6 +7,7 @@ import (
 	"fmt"
 	"go/constant"
 	"go/token"
+	"go/types"
 	"sort"
 	"strings"
 
@@ -1030,4 +1031,123 @@ func ruleG6p(c *Ctx) {
 		}
 	}
 	c.check(n >= 1, "G6p", "parenthesis rules found", "", fmt.Sprintf("%d returns", n))
+}
+
+// ---------------------------------------------------------------------------------------
+// H7k: handlers are looked up under the mnemonic as written; S9p: symbol entries are not patched
+// ---------------------------------------------------------------------------------------
+
+func ruleH7k(c *Ctx) {
+	c.doc("H7k", "the pass-1 handler map is consulted with the mnemonic exactly as the parser delivered it: no lookup under a shortened, trimmed or re-cased spelling — a fallback to `the mnemonic without its last letter` turns PUSHD into PUSH and SHLD AX,3 into SHL AX,3 without a diagnostic")
+	p1 := c.L.Pkg("internal/pass1")
+	if p1 == nil {
+		c.anchorMissing("H7k", "internal/pass1")
+		return
+	}
+	hm := interpretHandlers(p1)
+	if hm.Var == nil {
+		c.anchorMissing("H7k", "pass1 handler map")
+		return
+	}
+	n := 0
+	for _, f := range c.L.RepoFuncs() {
+		if pkgRel(f) != "internal/pass1" {
+			continue
+		}
+		per := 0
+		for _, b := range f.Blocks {
+			for _, in := range b.Instrs {
+				lk, ok := in.(*ssa.Lookup)
+				if !ok {
+					continue
+				}
+				ld, ok := lk.X.(*ssa.UnOp)
+				if !ok || ld.Op != token.MUL {
+					continue
+				}
+				gl, ok := ld.X.(*ssa.Global)
+				if !ok || gl.Object() != types.Object(hm.Var) {
+					continue
+				}
+				n++
+				per++
+				bad := keyTransforms(lk.Index)
+				// a substring of the mnemonic
+				seen := map[ssa.Value]bool{}
+				var walk func(v ssa.Value, d int)
+				walk = func(v ssa.Value, d int) {
+					if d > 6 || seen[v] {
+						return
+					}
+					seen[v] = true
+					switch x := v.(type) {
+					case *ssa.Slice:
+						bad = append(bad, "a substring")
+					case *ssa.Phi:
+						for _, e := range x.Edges {
+							walk(e, d+1)
+						}
+					case *ssa.BinOp:
+						if x.Op == token.ADD {
+							bad = append(bad, "a concatenation")
+						}
+					}
+				}
+				walk(lk.Index, 0)
+				c.check(len(bad) == 0, "H7k", fmt.Sprintf("%s|handler lookup#%d", shortName(f), per), c.L.Pos(instrPos(in)), fmt.Sprintf("the handler map is consulted with %v of the mnemonic: a different instruction's handler assembles this statement", bad))
+			}
+		}
+	}
+	c.check(n >= 1, "H7k", "handler lookups found", "", fmt.Sprintf("%d", n))
+}
+
+func ruleS9p(c *Ctx) {
+	c.doc("S9p", "a COFF symbol entry is complete when it is appended to the entry list: no field of an element of that list is assigned afterwards (by index), so that sorting the list cannot separate a name from its value, section or aux record")
+	f := c.L.SSAFunc("internal/filefmt", "(*CoffFormat).generateSymbolEntries")
+	if f == nil {
+		c.anchorMissing("S9p", "filefmt.(*CoffFormat).generateSymbolEntries")
+		return
+	}
+	n := 0
+	for _, g := range unitOf(f, 2) {
+		for _, b := range g.Blocks {
+			for _, in := range b.Instrs {
+				st, ok := in.(*ssa.Store)
+				if !ok {
+					continue
+				}
+				// the address is a field (of a field …) of an indexed element of a []SymbolEntry
+				a := st.Addr
+				depth := 0
+				for {
+					fa, ok := a.(*ssa.FieldAddr)
+					if !ok {
+						break
+					}
+					a = fa.X
+					depth++
+				}
+				ia, ok := a.(*ssa.IndexAddr)
+				if !ok {
+					continue
+				}
+				sl, ok := ia.X.Type().Underlying().(*types.Slice)
+				if !ok {
+					continue
+				}
+				if nm, _ := namedOf(sl.Elem()); nm != "SymbolEntry" {
+					continue
+				}
+				// element stores of an append are lowered into fresh backing arrays, not into the list
+				if _, fresh := ia.X.(*ssa.Slice); fresh {
+					if al, ok := ia.X.(*ssa.Slice).X.(*ssa.Alloc); ok && al.Heap {
+						continue
+					}
+				}
+				n++
+				c.fail("S9p", fmt.Sprintf("%s|entry patched by index#%d", shortName(g), n), c.L.Pos(instrPos(in)), "a field of an element of the symbol entry list is assigned after the entry was built: once the list is sorted the index no longer denotes the entry the value belongs to")
+			}
+		}
+	}
+	c.ok("S9p", "generateSymbolEntries|no entry is patched after it was appended", c.L.Pos(f.Pos()), fmt.Sprintf("%d stores into elements", n))
 }
